@@ -55,6 +55,14 @@ def run(tier, seed, replay=None):
             # property oracle on the implementation alone: every node presented once, no error
             got = set(i for i in c["seq"] if i >= 0)   # ids are dense 0..k-1, a shared node has one id
             impl_ok = (not c.get("err")) and got == set(range(c["distinct_ids"]))
+            for mode in ("reentrant", "concurrent"):
+                if c.get(mode):
+                    mism += 1
+                    if len(res.violations) < 16:
+                        res.violation({"property": PID, "kind": "a walk does not present every node of the tree while another walk of it is under way (%s)" % mode,
+                                       "source": c["src"], "alone": c["seq"], "difference": c[mode],
+                                       "how_to_replay": "reentrant: the callback walks every node it is handed before it returns; concurrent: two more goroutines "
+                                                        "walk the same tree (harness/c17.go c17Walk)"})
             if ok_line and impl_ok:
                 continue
             mism += 1
